@@ -502,19 +502,24 @@ class Ctx(object):
         conds = []
         seen2 = set()
         todo = [e]
-        while todo and len(conds) < 12:
+        nonlin = False
+        while todo:
             x = todo.pop()
             if x.get_id() in seen2:
                 continue
             seen2.add(x.get_id())
             if z3.is_app(x):
-                if x.decl().kind() == z3.Z3_OP_ITE and not z3.is_bool(x):
+                k = x.decl().kind()
+                if k == z3.Z3_OP_ITE and not z3.is_bool(x) and len(conds) < 12:
                     conds.append(x.arg(0))
+                elif k == z3.Z3_OP_MUL and sum(1 for c in x.children() if not z3.is_rational_value(c)) > 1:
+                    nonlin = True
                 todo.extend(x.children())
-        if conds:
+        if conds and nonlin:
             subs2 = []
+            t_c = time.time()
             self._sync()
-            self.solver.set("timeout", 1000)
+            self.solver.set("timeout", 150)
             try:
                 for c in conds:
                     self.solver.push()
@@ -532,6 +537,7 @@ class Ctx(object):
                         subs2.append((c, z3.BoolVal(False)))
             finally:
                 self.solver.set("timeout", FEAS_TIMEOUT_MS)
+                self.stats.solver_s += time.time() - t_c
             if subs2:
                 e = z3.simplify(z3.substitute(e, *subs2))
         return e
